@@ -181,19 +181,35 @@ def limiter(fire_count, fire_period, tss):
     return made
 
 
-def expected_effects(case):
-    """per driven place, per tracepoint index: how many snapshots / log lines / metric calls / spans"""
+def phase_tss(place, phase):
+    return place['tss'] if phase == 0 else place['more'][phase - 1]
+
+
+def live_after(case, phase):
+    """indices of the tracepoints that must act in `phase`: everything not unregistered so far"""
+    gone = set(case.get('unregs', [])[:phase])
+    return [i for i in range(len(case['tps'])) if i not in gone]
+
+
+def expected_effects(case, phase=0, hist=None):
+    """per driven place, per tracepoint index: how many snapshots / log lines / metric calls / spans.
+    `hist[i]`: the hits tracepoint i has already seen while installed (its limits go on counting)"""
     out = []
+    hist = hist if hist is not None else {}
+    live = live_after(case, phase)
     for place in case['places']:
         per = {}
         for i, tp in enumerate(case['tps']):
             loc = spec_location(tp)
-            if loc is None or place_of(loc) != place['place']:
+            if i not in live or loc is None or place_of(loc) != place['place']:
                 continue
             a = tp['args']
             cond = case['conds'][i]
-            fires = limiter(a.get('fire_count', '1'), a.get('fire_period', '1000'), place['tss']) \
-                if cond in (None, 'true') else 0
+            before = hist.get(i, [])
+            now = before + list(phase_tss(place, phase))
+            fc, fp = a.get('fire_count', '1'), a.get('fire_period', '1000')
+            fires = (limiter(fc, fp, now) - limiter(fc, fp, before)) if cond in (None, 'true') else 0
+            hist[i] = now
             collects = a.get('snapshot') != 'no_collect'
             e = {'snap': fires if collects else 0, 'log': fires if 'log_msg' in a else 0,
                  'metric': fires * len(tp['metrics']), 'span': fires if 'span' in a else 0}
@@ -325,7 +341,7 @@ def frame_for(place, locals_):
     return MockFrame('/app/' + path, what, 1, dict(locals_)), 'call'
 
 
-def drive(rig, case, id_to_idx):
+def drive(rig, case, id_to_idx, phase=0):
     """drive every place `hits` times; returns per place {tp index: effect counts} + first snapshot details"""
     locals_ = {'x': 5, 'y': [1, 2]}
     for i, c in enumerate(case['conds']):
@@ -338,7 +354,7 @@ def drive(rig, case, id_to_idx):
             i = id_to_idx.get(tpid)
             key = str(i) if i is not None else 'unknown:' + str(tpid)
             per.setdefault(key, {'snap': 0, 'log': 0, 'metric': 0, 'span': 0})[kind] += n
-        for ts in place['tss']:
+        for ts in phase_tss(place, phase):
             rig.clock = ts
             n_push, n_log = len(rig.push.pushed), len(rig.logger.logged)
             n_met, n_span = len(rig.metric.calls), len(rig.span.events)
@@ -395,27 +411,58 @@ def run_register(case):
     try:
         svc = rig.config.tracepoints
         svc.set_task_handler(Inline())
+        import deep.grpc as g
         id_to_idx = dict(case['metric_owner_idx'])
+        service = list(case.get('service', []))
+        rid_of = {}
         try:
+            if service:          # tracepoints that came from the service stay installed beside the registrations
+                svc.update_new_config(1, 'h1', g.convert_response([proto_tp(case['tps'][i]) for i in service]))
+                for i in service:
+                    id_to_idx[case['tps'][i]['id']] = i
             for i, tp in enumerate(case['tps']):
+                if i in service:
+                    continue
                 rid = svc.add_custom(tp['path'], tp['line'], dict(tp['args']), list(tp['watches']),
                                      real_metrics(tp['metrics']))
                 id_to_idx[rid] = i
+                rid_of[i] = rid
         except Exception as e:  # noqa: B902
             return {'raised': f'add_custom: {type(e).__name__}: {e}'}
         idx_of = {rid: i for rid, i in id_to_idx.items()}
-        trigs = []
-        for t in list(svc._custom):
-            d = dump_trigger(t)
-            if d is not None:
-                for a in d['actions']:
-                    a['id'] = case['tps'][idx_of[a['id']]]['id'] if a['id'] in idx_of else a['id']
-            trigs.append(d)
-        obs = {'triggers': trigs}
+
+        def custom_dump():
+            trigs = []
+            for t in list(svc._custom):
+                d = dump_trigger(t)
+                if d is not None:
+                    for a in d['actions']:
+                        a['id'] = case['tps'][idx_of[a['id']]]['id'] if a['id'] in idx_of else a['id']
+                trigs.append(d)
+            return trigs
+        obs = {'triggers': custom_dump()}
         try:
             obs['effects'], obs['snaps'] = drive(rig, case, id_to_idx)
         except BaseException as e:  # noqa: B902
             obs['raised'] = f'trace_call: {type(e).__name__}: {e}'
+            return obs
+        phases = []
+        for p, u in enumerate(case.get('unregs', []), 1):
+            ph = {'unregistered': u}
+            try:
+                svc.remove_custom(rid_of[u])           # what TracepointRegistration.unregister() does
+            except BaseException as e:  # noqa: B902
+                ph['raised'] = f'unregister: {type(e).__name__}: {e}'
+                phases.append(ph)
+                break
+            ph['triggers'] = custom_dump()
+            try:
+                ph['effects'], _ = drive(rig, case, id_to_idx, p)
+            except BaseException as e:  # noqa: B902
+                ph['raised'] = f'trace_call: {type(e).__name__}: {e}'
+            phases.append(ph)
+        if phases:
+            obs['phases'] = phases
         return obs
     finally:
         rig.close()
@@ -491,7 +538,7 @@ def oracle(case, obs):
             for g, e in zip(got, exp):
                 v += diff_trigger(g, e, 'location ' + e['id'], with_pos=False)[:3]
     else:
-        exp = [spec_trigger(tp) for tp in case['tps']]
+        exp = [spec_trigger(tp) for i, tp in enumerate(case['tps']) if i not in case.get('service', [])]
         exp = [t for t in exp if t is not None]
         got = obs['triggers']
         if None in got:
@@ -515,6 +562,30 @@ def oracle(case, obs):
                              f'({json.dumps(tpd["args"], sort_keys=True) if tpd else "?"}, condition '
                              f'{case["conds"][int(i)] if tpd else "?"}) produced {got_e.get(i)}, its arguments ask for '
                              f'{exp_e.get(i)} over hits at {place["tss"]}')
+    hist = {}
+    expected_effects(case, 0, hist)
+    for p, ph in enumerate(obs.get('phases', []), 1):
+        what = f'after unregistering tracepoint {ph["unregistered"]}'
+        if 'raised' in ph and 'triggers' not in ph:
+            v.append(f'{what}: {ph["raised"]}')
+            break
+        live = live_after(case, p)
+        exp_t = [spec_trigger(case['tps'][i]) for i in live if i not in case.get('service', [])]
+        exp_t = [t for t in exp_t if t is not None]
+        got_t = [t for t in ph['triggers'] if t is not None]
+        if [norm_trigger(t) for t in got_t] != [norm_trigger(t) for t in exp_t]:
+            v.append(f'{what}: installed registrations are tracepoints '
+                     f'{[sorted(set(a["id"] for a in t["actions"])) for t in got_t]}, the live ones are '
+                     f'{[sorted(set(a["id"] for a in t["actions"])) for t in exp_t]}')
+        if 'raised' in ph:
+            v.append(f'{what}: handler raised into the host: {ph["raised"]}')
+            break
+        exp_e = expected_effects(case, p, hist)
+        for place, got_e, ex in zip(case['places'], ph['effects'], exp_e):
+            for i in sorted(set(got_e) | set(ex)):
+                if got_e.get(i) != ex.get(i):
+                    v.append(f'{what}: at {place["place"]} tracepoint {i} produced {got_e.get(i)}, expected {ex.get(i)} '
+                             f'(live: {live})')
     for i, s in obs.get('snaps', {}).items():
         tp = case['tps'][int(i)]
         if s['watches'] != list(tp['watches']):
@@ -531,6 +602,11 @@ def model_request(case, obs):
                 'line': 7, 'args': {}, 'watches': case['watches'], 'metrics': ONE_METRIC if case['metrics'] else []}
     if k == 'build':
         return dict(case['tp'], op='build')
+    if k == 'register':
+        custom = [i for i in range(len(case['tps'])) if i not in case.get('service', [])]
+        lives = [custom] + [[i for i in live_after(case, p) if i in custom]
+                            for p in range(1, len(obs.get('phases', [])) + 1)]
+        return {'op': 'register_phases', 'tps': case['tps'], 'lives': lives}
     return {'op': k, 'tps': case['tps']}
 
 
@@ -557,6 +633,12 @@ def compare(case, obs, resp):
             f'{json.dumps(resp["trigger"], sort_keys=True)[:400]}']
     if 'triggers' not in obs:
         return ['implementation raised, model does not: ' + obs.get('raised', '?')]
+    if k == 'register':
+        got = [obs['triggers']] + [ph.get('triggers') for ph in obs.get('phases', [])]
+        if got != resp['phases']:
+            return [f'custom list per phase: implementation {json.dumps(got, sort_keys=True)[:500]} model '
+                    f'{json.dumps(resp["phases"], sort_keys=True)[:500]}']
+        return []
     if obs['triggers'] != resp['triggers']:
         return [f'triggers: implementation {json.dumps(obs["triggers"], sort_keys=True)[:500]} model '
                 f'{json.dumps(resp["triggers"], sort_keys=True)[:500]}']
@@ -628,7 +710,7 @@ def gen_tp(rng, i, effects=True):
     return tp, cond
 
 
-def finish_case(rng, kind, tps, conds):
+def finish_case(rng, kind, tps, conds, extra=None):
     places, seen = [], set()
     for tp in tps:
         loc = spec_location(tp)
@@ -645,7 +727,14 @@ def finish_case(rng, kind, tps, conds):
     # one place where nothing is configured: no effects expected
     places.append({'place': ['line', 'host.py', 99], 'tss': [5, 5 + 10 ** 10]})
     owner_idx = {m['name']: i for i, tp in enumerate(tps) for m in tp['metrics']}
-    return {'kind': kind, 'tps': tps, 'conds': conds, 'places': places, 'metric_owner_idx': owner_idx}
+    case = {'kind': kind, 'tps': tps, 'conds': conds, 'places': places, 'metric_owner_idx': owner_idx}
+    if extra:
+        case.update(extra)
+        for pl in places:
+            base, step = pl['tss'][0], (pl['tss'][1] - pl['tss'][0]) or 1
+            pl['more'] = [[base + (3 * p + k) * step for k in range(3)]
+                          for p in range(1, len(case.get('unregs', [])) + 1)]
+    return case
 
 
 def gen_list(rng, kind):
@@ -660,7 +749,18 @@ def gen_list(rng, kind):
                 tp['args']['method_name'] = o['args']['method_name']
         tps.append(tp)
         conds.append(c)
-    return finish_case(rng, kind, tps, conds)
+    extra = None
+    if kind == 'register' and rng.random() < 0.6:
+        # some tracepoints come from the service, registrations are unregistered one by one (never the same twice)
+        service = [i for i in range(n) if rng.random() < 0.2]
+        custom = [i for i in range(n) if i not in service]
+        unregs = rng.sample(custom, rng.randint(0, len(custom)))
+        for tp in tps:
+            if rng.random() < 0.7:               # keep acting after the first hit, so later phases show who is live
+                tp['args']['fire_count'] = '-1'
+                tp['args']['fire_period'] = '0'
+        extra = {'service': service, 'unregs': unregs}
+    return finish_case(rng, kind, tps, conds, extra)
 
 
 def gen_build(rng):
@@ -723,6 +823,11 @@ def corpus():
         finish_case(rng, 'register', [good, bad], [None, None]),
         finish_case(rng, 'register', [bad, good], [None, None]),
         finish_case(rng, 'response', two, [None, 'true', 'false']),
+        # an uninterpretable registration, then valid ones, then unregister a valid one that is not the last
+        finish_case(rng, 'register', [bad, _tp(0, 'host.py', 7, {'fire_count': '-1', 'fire_period': '0'}),
+                                      _tp(2, 'host.py', 12, {'fire_count': '-1', 'fire_period': '0'}),
+                                      _tp(3, 'other.py', 40, {'fire_count': '-1', 'fire_period': '0'})],
+                    [None, None, None, None], {'service': [], 'unregs': [1, 0, 3]}),
         # probe notes/probes/p_c11_nameless_method_blocks_file.py: the nameless method tracepoint costs only itself
         finish_case(rng, 'response', [good, _tp(1, 'host.py', 12, {'stage': 'method_start'})], [None, None]),
         finish_case(rng, 'register', [_tp(1, 'host.py', 12, {'stage': 'method_end', 'span': 'method'}), good],
@@ -744,6 +849,8 @@ def label(case, obs):
         k += '/nameless-method'
     ids = [s['id'] for s in specs if s is not None]
     shared = len(set(ids)) < len(ids)
+    if case.get('unregs'):
+        k += '/unregister%d' % len(case['unregs'])
     return f'{k}/' + ('shared+' if shared else '') + ('uninterpretable' if unint else 'plain')
 
 
@@ -773,6 +880,23 @@ def shrink(case):
         return
     tps = case['tps']
     import random
+    if case.get('unregs') or case.get('service'):
+        un = case.get('unregs', [])
+        for j in range(len(un)):
+            yield finish_case(random.Random(1), k, [dict(t) for t in tps], list(case['conds']),
+                              {'service': list(case.get('service', [])), 'unregs': un[:j] + un[j + 1:]})
+        if case.get('service'):
+            yield finish_case(random.Random(1), k, [dict(t) for t in tps], list(case['conds']),
+                              {'service': [], 'unregs': list(un)})
+        for i, tp in enumerate(tps):
+            for key in list(tp['args']):
+                if key in ('condition', 'fire_count', 'fire_period'):
+                    continue
+                sub = [dict(t) for t in tps]
+                sub[i] = dict(tp, args={a: b for a, b in tp['args'].items() if a != key})
+                yield finish_case(random.Random(1), k, sub, list(case['conds']),
+                                  {'service': list(case.get('service', [])), 'unregs': list(un)})
+        return
     for i in range(len(tps)):
         if len(tps) > 1:
             keep = [j for j in range(len(tps)) if j != i]
